@@ -139,6 +139,17 @@ def _pair_one(c):
     for _ in range(3):
       s = step(s)
     runs[tag] = dict(rec=rec, final=_leaves(s), grid=grid)
+    if cls == 'sw':
+      # the library's constructor of balanced jets, fed with the same SI wind under either scale
+      try:
+        from dinosaur import shallow_water_states as sws
+      except ImportError:
+        sws = None
+      if sws is not None and hasattr(sws, 'multi_layer'):
+        mu1 = np.asarray(grid.nodal_axes[1], np.float64)
+        u_si = np.sqrt(1.0 - mu1 ** 2) * np.stack([20.0 + 10.0 * mu1, 15.0 - 5.0 * mu1 ** 2])
+        u_nd = u_si * float(scale.nondimensionalize(1.0 * scales.units.m / scales.units.s))
+        runs[tag]['jet'] = _leaves(sws.multi_layer(jnp.asarray(u_nd), np.asarray(specs.densities, np.float64), eq.coords))
   ra, rb = runs['A']['rec'], runs['B']['rec']
   ncmp = 0
   # (1) every recorded node scales with its spec dimension
@@ -189,8 +200,23 @@ def _pair_one(c):
     if not np.isfinite(err) or err > 1e-10:
       bad(f'trajectory:{cls}:{fk}', f'3 SIL3 steps (dt = {si["dt"]} s, exponential filter) under the two scales differ by {err:.3e} '
           f'after conversion to SI')
+  # (3) the constructed balanced jet is the same physical state under either scale.  The constructor hard-wires the Coriolis
+  # parameter to sin(lat) (2 Omega = 1 in its time unit), so its potential is homogeneous in every unit except the time unit
+  ja, jb = runs['A'].get('jet'), runs['B'].get('jet')
+  if ja is not None and jb is not None:
+    for fk in ('vorticity', 'divergence', 'potential'):
+      if fk == 'potential' and d == 1:
+        continue
+      want = 2.0 ** (-k * VAR_DIM[fk][d])
+      a, b = ja[fk] * want, jb[fk]
+      sc = max(np.abs(a).max(), np.abs(b).max(), 1e-300)
+      err = np.abs(b - a).max() / sc if a.shape == b.shape else float('inf')
+      ncmp += 1
+      if not np.isfinite(err) or err > 1e-11:
+        bad(f'constructor:sw:{fk}', f'unit of {DIMS[d]} enlarged by 2^{k}: the {fk} of the state built by shallow_water_states.multi_layer '
+            f'from the same SI wind differs by {err:.3e} after conversion (dimension {list(VAR_DIM[fk])})')
   out.append({'case': None, 'sig': '__stat__', 'detail': '', 'n': ncmp})
-  prop = lambda g: (g.startswith('trajectory:') or ':exception:' in g or
+  prop = lambda g: (g.startswith('trajectory:') or ':exception:' in g or g.startswith('constructor:') or
                     (g.startswith('dimension:') and g.split(':')[2].startswith(('explicit.', 'implicit.', 'forcing.'))))
   return common.settle(out, prop)
 
